@@ -236,3 +236,87 @@ def r09_7_calendar_retention(ctx: Ctx) -> RuleResult:
     files = anchor_files("C09")
     check_retention(ctx, rr, lambda f: f.mod.rel in files)
     return rr
+
+
+@rule("C09")
+def r09_8_sibling_arms_same_operands(ctx: Ctx) -> RuleResult:
+    """Within one operand branch of Period.between every single-unit arm and the multi-unit computation measure between the same
+    two operands (the end operand adjusted for the time-of-day borrow, where there is one)."""
+    from ..kit import own_nodes
+
+    rr = RuleResult("R09.8", "Period.between: in each operand branch every unit arm measures between the same (start, end) operands as its siblings and as the multi-unit path", min_instances=3)
+    M = ctx.M
+    f = M.func("Period.between")
+    MEASURES = ("units_between", "_internal_days_between", "__date_components_between", "_Period__date_components_between")
+    for m in [n for n in own_nodes(f.node) if isinstance(n, ast.Match)]:
+        arms: list[tuple[str, tuple[str, ...], ast.AST]] = []
+        for case in m.cases:
+            for n in [x for s in case.body for x in ast.walk(s)]:
+                if isinstance(n, ast.Call) and isinstance(n.func, ast.Attribute) and n.func.attr in MEASURES and len(n.args) >= 2:
+                    arms.append((unparse(case.pattern)[:40], (unparse(n.args[0]), unparse(n.args[1])), n))
+        if len(arms) < 2:
+            continue
+        # the multi-unit path: the next measuring call after the match statement in the same block
+        par = getattr(m, "_parent", None)
+        blk = next((getattr(par, fld) for fld in ("body", "orelse") if isinstance(getattr(par, fld, None), list) and m in getattr(par, fld)), [])
+        after = [x for s in blk[blk.index(m) + 1:] for x in ast.walk(s)] if m in blk else []
+        multi = next((n for n in after if isinstance(n, ast.Call) and isinstance(n.func, ast.Attribute) and n.func.attr in MEASURES and len(n.args) >= 2), None)
+        ref = (unparse(multi.args[0]), unparse(multi.args[1])) if multi is not None else max({a[1] for a in arms}, key=lambda p: sum(1 for a in arms if a[1] == p))
+        rr.inst()
+        rr.states += len(arms)
+        bad = [a for a in arms if a[1] != ref]
+        if bad:
+            rr.fail(f.qual, f"arm `case {bad[0][0]}` measures between ({bad[0][1][0]}, {bad[0][1][1]}) while its sibling arms and the multi-unit path use ({ref[0]}, {ref[1]}): the time-of-day adjustment of the end operand is lost for that unit", ctx.loc(f, bad[0][2]))
+        else:
+            rr.ok({"branch_operands": list(ref), "arms": len(arms)})
+    return rr
+
+
+@rule("C09")
+def r09_9_hebrew_set_year_months(ctx: Ctx) -> RuleResult:
+    """Changing the year of a Hebrew date keeps the month except for the two documented Adar moves; in particular a year of the
+    same kind (leap / common) never changes the month.  Finite domain: (current leap?, target leap?, scriptural month)."""
+    from ..absint import Iv, Obj
+    from ..oblig import interp as mk
+
+    rr = RuleResult("R09.9", "Hebrew year change: the month is kept except Adar II -> Adar into a common year and Adar (common year) -> Adar II into a leap year; a year of the same kind keeps every month (all 50 combinations of year kinds and months)", min_instances=40)
+    M = ctx.M
+    f = M.func("_HebrewYearMonthDayCalculator._set_year")
+    scriptural = M.fold_class_const("HebrewMonthNumbering", "SCRIPTURAL")
+    if not isinstance(scriptural, int):
+        raise AnalysisError("HebrewMonthNumbering.SCRIPTURAL not foldable")
+    LEAP = {5782: 1, 5784: 1, 5783: 0, 5785: 0}
+
+    def is_leap(args, kws, recv):
+        y = args[0] if args else kws.get("year")
+        return Iv(LEAP[int(y.lo)], LEAP[int(y.lo)]) if isinstance(y, Iv) and y.const and int(y.lo) in LEAP else Iv(0, 1)
+
+    def ymd_ctor(args, kws, recv):
+        return Obj("_YearMonthDay", {"_year": kws.get("year", Iv(0, 0)), "_month": kws.get("month", Iv(0, 0)), "_day": kws.get("day", Iv(0, 0))})
+
+    for cur in (5782, 5783):
+        for tgt in (5784, 5785):
+            for m in range(1, 14 if LEAP[cur] else 13):
+                rr.inst()
+                rr.states += 1
+                I = mk(ctx)
+                I.max_depth = 6
+                I.stubs["_HebrewYearMonthDayCalculator._is_leap_year"] = is_leap
+                I.stubs["_HebrewScripturalCalculator._is_leap_year"] = is_leap
+                I.stubs["_HebrewScripturalCalculator._days_in_month"] = lambda a, k, r: Iv(30, 30)
+                I.stubs["_YearMonthDay._ctor"] = ymd_ctor
+                so = Obj("_HebrewYearMonthDayCalculator", {mangle("_HebrewYearMonthDayCalculator", "__month_numbering"): Iv(scriptural, scriptural), "$exact": Iv(1, 1)})
+                ymd = Obj("_YearMonthDay", {"_year": Iv(cur, cur), "_month": Iv(m, m), "_day": Iv(15, 15)})
+                rets, _ = I.analyse(f, self_obj=so, params={"year_month_day": ymd, "year": Iv(tgt, tgt)})
+                want = m
+                if m == 13 and not LEAP[tgt]:
+                    want = 12
+                elif m == 12 and LEAP[tgt] and not LEAP[cur]:
+                    want = 13
+                got = [v.fields.get("_month") for v, _ in rets if isinstance(v, Obj)]
+                kinds = f"{'leap' if LEAP[cur] else 'common'} -> {'leap' if LEAP[tgt] else 'common'}"
+                if got and all(isinstance(g, Iv) and g.const and g.lo == want for g in got):
+                    rr.ok({"years": kinds, "month": m, "result_month": want})
+                else:
+                    rr.fail(f.qual, f"year change {kinds}, scriptural month {m}: result month {got}, the documented rule gives {want} (adding years does not keep the month / is not undone by subtracting them)", f.loc)
+    return rr
